@@ -38,6 +38,7 @@ are useful when dealing with input, output, and bytestreams in a variety of
 ways.
 """
 import os
+import operator
 from io import BytesIO, IOBase
 from abc import (
     ABCMeta,
@@ -433,6 +434,9 @@ class SpooledStringIO(SpooledIOBase):
     def seek(self, pos, mode=0):
         """Traverse from offset to the specified codepoint"""
         self._checkClosed()
+        # Refuse a position that is not an integer before the stream is
+        # moved (io.StringIO does the same); a failed seek changes nothing.
+        pos = operator.index(pos)
         # Seek to position from the start of the file
         if mode == os.SEEK_SET:
             self.buffer.seek(0)
